@@ -235,6 +235,8 @@ func main() {
 		cmdCPMPar()
 	case "cbraise":
 		cmdCBRaise()
+	case "mirrorpoke":
+		cmdMirrorPoke()
 	case "par":
 		cmdPar(os.Args[2:])
 	case "ctx":
